@@ -8,7 +8,17 @@ is preceded on every path by the row validators (NOT NULL/PK/UNIQUE/CHECK) of it
 on depends on the destination schema only, and each validator call is decided by its own flag only;
 (d) hash-index probes of the uniqueness validators are keyed in the index's column order;
 (e) per-constraint vectors consumed by position are filled on every iteration (REPLACE);
-(f) "which constraint's index is affected by this UPDATE" is decided existentially.
+(f) "which constraint's index is affected by this UPDATE" is decided existentially;
+(g) validate-all-then-apply needs a validator that sees the statement's rows together: where a per-row uniqueness
+validator runs in a loop that does not itself apply the rows (each row is compared with the table as it was before the
+statement), every key source it answers for (PRIMARY KEY, UNIQUE constraints, unique indexes) is covered by an
+accumulator that is filled in the same loop and handed to the validator, by a batch check behind the loop that dominates
+every mutation (reaches a HashSet insert and reads that key source), or - unique indexes in the executor - by handing the
+rows to the storage entry points that are themselves sites of this rule.  `UPDATE t SET u = 7` over two rows and
+`INSERT .. VALUES (5,1),(5,2)` under a unique index stored duplicates;
+(h) a UNIQUE index is not created over rows that already collide: in IndexManager::create_index the registration of the
+index (self.indexes.insert) is dominated by a test of the `unique` parameter whose true branch runs, before anything is
+registered, a loop with a set insertion whose "already present" answer leaves with an error.
 Does NOT decide that the hash indexes are right (C15) or CHECK expression semantics."""
 import re
 from ..engine.callgraph import CallGraph
@@ -169,5 +179,201 @@ def run(ctx):
     shared.hash_key_rule(ctx, 'C10.d', lambda f: bool(VALMOD.match(f.nice)), exceptions=shared.PREEXTRACTED, floor=6)
     shared.key_order_rule(ctx, 'C10.d2')
     shared.aligned_rule(ctx, 'C10.e', lambda f: f.nice.startswith('vibesql_executor::insert::') or f.nice.startswith('vibesql_executor::update::constraints'), floor=1)
+    batch_uniqueness_rule(ctx)
+    unique_index_creation_rule(ctx)
     shared.quantifier_rule(ctx, 'C10.f', lambda f: f.nice.startswith('vibesql_storage::table::') or f.nice.startswith('vibesql_executor::insert::')
                            or f.nice.startswith('vibesql_executor::update::constraints'), control_floor=2)
+
+
+# ---------------------------------------------------------------- (g) batch-blind uniqueness validation
+UNIQ_VALIDATORS = [
+    (re.compile(r"update::constraints::ConstraintValidator::<'a>::validate_row$"), {'pk', 'unique'}),
+    (re.compile(r"update::constraints::ConstraintValidator::<'a>::validate_unique_indexes$"), {'index'}),
+    (re.compile(r"insert::row_validator::RowValidator::<'a>::validate$"), {'pk', 'unique', 'index'}),
+    (re.compile(r"index_manager::IndexManager::check_unique_constraints_for_insert$"), {'index'}),
+]
+MUTATION = re.compile(r"(table::Table::(insert|update_row\w*)|Database::(insert_row\w*|insert_rows_batch|update_row\w*))$")
+STORAGE_SITES = re.compile(r"Database::(insert_rows_batch|insert_row)$")       # storage entry points the executor may delegate unique indexes to
+SOURCE_READER = {'pk': re.compile(r'::get_primary_key_indices$'), 'unique': re.compile(r'::get_unique_constraint_indices$')}
+PUSH_TOKEN = {'pk': 'primary_key', 'unique': 'unique_keys', 'index': 'index'}
+
+
+def _batch_callee_covers(prog, cg, h, depth=3):
+    """key sources for which function h (and what it calls, same crate) is a set-based duplicate detector"""
+    from ..engine.symexpr import Sym
+    from . import shared
+    seen, work, out, has_set = set(), [(h, 0)], set(), False
+    while work:
+        f, d = work.pop()
+        if f.path in seen:
+            continue
+        seen.add(f.path)
+        s = None
+        for i, t in f.calls():
+            cn = callee_name(t) or ''
+            if re.search(r'HashSet<.*>::insert$|hash::set::HashSet<.*>::insert|HashSet::<.*>::insert$', cn):
+                has_set = True
+            for src, rx in SOURCE_READER.items():
+                if rx.search(cn):
+                    out.add(src)
+            if d < depth:
+                for c in prog.by_nice.get(cn, []):
+                    if c.unit == f.unit and not shared.is_test(c):
+                        work.append((c, d + 1))
+        for bi, b in enumerate(f.blocks):
+            if b['t']['k'] == 'switch':
+                s = s or Sym(f)
+                if re.search(r'\.unique\b', shared.switch_condition(f, bi, s)):
+                    out.add('index')
+        for c in prog.children(f):
+            work.append((c, d))
+    return out if has_set else set()
+
+
+def _acc_root(f, defs, op):
+    """named local a (reference) operand refers to, through borrows, moves and v[i] (IndexMut / DerefMut)"""
+    from ..engine.cfg import op_place
+    p = op_place(op)
+    for _ in range(12):
+        if p is None:
+            return None
+        l = p[0]
+        if l in f.names:
+            return l
+        ds = defs.get(l, [])
+        if len(ds) != 1:
+            return None
+        kind, v = ds[0][1], ds[0][2]
+        if kind == 'assign' and v['r'] == 'ref':
+            p = v['p']
+        elif kind == 'assign' and v['r'] in ('use', 'cast'):
+            p = op_place(v['a'])
+        elif kind == 'call' and re.search(r'::(index_mut|index|deref_mut|deref)$', callee_name(v) or '') and v['args']:
+            p = op_place(v['args'][0])
+        else:
+            return None
+    return None
+
+
+def batch_uniqueness_rule(ctx):
+    from ..engine.symexpr import Sym
+    from ..engine.cfg import cfg, defs_of
+    from ..engine.paths import search
+    from . import shared
+    prog = ctx.prog
+    ctx.rule('C10.g', 'a per-row uniqueness validator called in a loop that applies no row: each key source it answers for is covered by an accumulator filled in the loop and '
+             'handed to the validator, by a set-based batch check behind the loop that dominates every mutation, or (unique indexes, executor) by delegation to the storage '
+             'entry points, which are sites of this rule themselves')
+    cg = CallGraph(prog)
+    nsites = 0
+    for f in prog.fns.values():
+        if f.unit not in ('vibesql_executor', 'vibesql_storage') or shared.is_test(f):
+            continue
+        sites = []
+        for i, t in f.calls():
+            cn = callee_name(t) or ''
+            for rx, srcs in UNIQ_VALIDATORS:
+                if rx.search(cn):
+                    sites.append((i, t, cn, srcs))
+        if not sites:
+            continue
+        g = cfg(f)
+        s = Sym(f)
+        defs = defs_of(f)
+        muts = [(j, callee_name(t2) or '') for j, t2 in f.calls() if MUTATION.search(callee_name(t2) or '')]
+        for i, t, cn, srcs in sites:
+            comp = next((set(c) for c in g.sccs() if i in c and len(c) > 1), None)
+            if comp is None or any(j in comp for j, _n in muts):
+                continue                                  # single row, or rows applied one by one inside the loop (sequential)
+            nsites += 1
+            covered = {}
+            after_loop, loop_exits = set(), []
+            for b0 in comp:
+                for x in g.succ[b0]:
+                    if x not in comp and not f.blocks[x]['t'].get('cleanup'):
+                        after_loop |= shared._forward_reach(g, x)
+                        loop_exits.append(x)
+            # (i) accumulators: pushed in the loop, handed by reference to a call in the loop
+            for j, t2 in f.calls():
+                c2 = callee_name(t2) or ''
+                if j in comp and re.search(r'Vec<.*>::push$|Vec::<.*>::push$', c2) and len(t2['args']) > 1:
+                    root = _acc_root(f, defs, t2['args'][0])
+                    val = s.op(t2['args'][1])
+                    if root is None:
+                        continue
+                    handed = any(k in comp and k != j and not re.search(r'::(push|index_mut)$', callee_name(t3) or '')
+                                 and any(_acc_root(f, defs, a) == root for a in t3['args']) for k, t3 in f.calls())
+                    for src in srcs:
+                        if handed and PUSH_TOKEN[src] in val:
+                            covered[src] = f'accumulator {f.names.get(root)}'
+            # (ii) batch check behind the loop
+            for j, t2 in f.calls():
+                if j in comp or not muts or j not in after_loop:
+                    continue
+                # whenever the validating loop has run, the batch check runs before any mutation
+                reached, _ = search(f, loop_exits, {j}, loop_model=False)
+                if any(m in reached for m, _n in muts):
+                    continue
+                for h in prog.by_nice.get(callee_name(t2) or '', []):
+                    if h.unit == f.unit:
+                        for src in _batch_callee_covers(prog, cg, h) & srcs:
+                            covered.setdefault(src, f'batch check {h.nice.rsplit("::", 1)[1]}')
+            # (iii) unique indexes delegated to the storage entry points
+            if 'index' in srcs and 'index' not in covered and f.unit == 'vibesql_executor' and muts and all(STORAGE_SITES.search(n) for _j, n in muts):
+                covered['index'] = 'delegated to ' + ' / '.join(sorted({n.rsplit('::', 1)[1] for _j, n in muts}))
+            short = re.sub(r"<impl [^>]*>::", '', f.nice).rsplit('::', 1)[-1]
+            vshort = cn.rsplit('::', 1)[-1]
+            ctx.instance(f'g/{short}/{vshort}', {'rule': 'C10.g', 'fn': f.nice, 'loc': f'{f.file}:{t["l"]}', 'validator': vshort, 'sources': sorted(srcs),
+                                                 'covered_by': covered})
+            for src in sorted(srcs - set(covered)):
+                what = {'pk': 'PRIMARY KEY', 'unique': 'UNIQUE constraints', 'index': 'unique indexes'}[src]
+                ctx.finding(f'g/{short}/{vshort}/{src}', f'{f.nice} validates the rows of one statement one by one with {vshort} against the table as it was before the statement '
+                            f'and applies them afterwards; nothing compares the rows with each other for {what}: two rows of the same statement that receive the same key are both '
+                            'stored (UPDATE t SET u = 7 over two rows; INSERT .. VALUES (5,1),(5,2) under CREATE UNIQUE INDEX)', f'{f.file}:{t["l"]}')
+    ctx.floor('C10.g validate-then-apply sites', nsites, 4)
+
+
+def unique_index_creation_rule(ctx):
+    from ..engine.symexpr import Sym
+    from ..engine.cfg import cfg
+    from ..engine.paths import exit_classes
+    from . import shared
+    prog = ctx.prog
+    ctx.rule('C10.h', 'IndexManager::create_index: a switch on the parameter `unique` dominates self.indexes.insert; on its true side a HashSet::insert inside a loop decides '
+             'an error exit (duplicate among the existing rows) before the index is registered')
+    fs = [f for f in prog.fns.values() if f.unit == 'vibesql_storage' and re.search(r'index_maintenance::<impl .*IndexManager>::create_index$', f.nice) and not shared.is_test(f)]
+    ctx.require(len(fs) == 1, 'IndexManager::create_index (index_maintenance) not found')
+    f = fs[0]
+    g = cfg(f)
+    s = Sym(f)
+    regs = [i for i, t in f.calls() if re.search(r'HashMap<.*>::insert$|HashMap::<.*>::insert$', callee_name(t) or '') and 'self.indexes' in s.op(t['args'][0])]
+    ctx.require(regs, 'create_index: self.indexes.insert not found')
+    err, _ok = exit_classes(f)
+    ok = False
+    detail = {}
+    for bi, b in enumerate(f.blocks):
+        if b['t']['k'] != 'switch' or shared.switch_condition(f, bi, s) != 'unique':
+            continue
+        if not all(g.dominates(bi, r) for r in regs):
+            continue
+        detail['unique_test_dominates_registration'] = True
+        for j, t in f.calls():
+            if not re.search(r'HashSet<.*>::insert$|HashSet::<.*>::insert$', callee_name(t) or ''):
+                continue
+            in_loop = any(j in c and len(c) > 1 for c in g.sccs())
+            conds = {c: v for c, v in shared.deciding_conditions(f, j, s)}
+            on_true_side = conds.get('unique') not in (None, '0')
+            before = all(not g.dominates(r, j) for r in regs) and all(j not in shared._forward_reach(g, r) for r in regs)
+            # the "already present" answer (false) reaches an error exit without passing the registration
+            nxt = t.get('to')
+            errs = set()
+            if nxt is not None:
+                reach = shared._forward_reach(g, nxt)
+                errs = {e for e in err if e in reach}
+            detail.update(set_insert_in_loop=in_loop, on_unique_side=on_true_side, before_registration=before, decides_error_exit=bool(errs))
+            if in_loop and on_true_side and before and errs:
+                ok = True
+    ctx.instance('h/create_index', dict(rule='C10.h', fn=f.nice, loc=f.loc, ok=ok, **detail))
+    if not ok:
+        ctx.finding('h/create_index', 'IndexManager::create_index registers a UNIQUE index without looking for keys that the existing rows share: CREATE UNIQUE INDEX over a column '
+                    'with duplicates succeeds and the table violates its unique index from then on (INSERT (1,1),(1,2); CREATE UNIQUE INDEX u ON t(a) -> OK)', f.loc)
